@@ -121,11 +121,19 @@ def _mk_piece(c, pb, i, n_notes, lean=False):
   tt = K.well_formed_total(c, ns, notes, name=P + 'tt')
   if lean:
     # notes and one control change only (the state events multiply the case
-    # splits of the redundant-event rule; they are covered with M <= 2)
+    # splits of the redundant-event rule; they are covered with M <= 2), plus
+    # - when asked - ONE kind of state event at the start of the piece
     cc = c.real(P + 'cc_t', 0)
     ns.control_changes.add(time=cc, control_number=64, control_value=c.int(
         P + 'cc_v', 0, 127))
-    return dict(ns=ns, notes=notes, tt=tt, cc=cc)
+    d = dict(ns=ns, notes=notes, tt=tt, cc=cc)
+    if lean == 'tempo':
+      d['tp'] = (0, c.choice(P + 'tp_q', [120, 90]))
+      ns.tempos.add(time=0, qpm=d['tp'][1])
+    elif lean == 'key':
+      d['ks'] = (0, c.choice(P + 'ks_k', [0, 7]))
+      ns.key_signatures.add(time=0, key=d['ks'][1])
+    return d
   tp = (c.real(P + 'tp_t', 0), c.real(P + 'tp_q', 10, 480))
   ns.tempos.add(time=tp[0], qpm=tp[1])
   ts = (c.real(P + 'ts_t', 0), c.int(P + 'ts_n', 1, 12))
@@ -202,7 +210,7 @@ def h_concat(c):
   for name, key, val in (('tempos', 'tp', lambda e: (e.qpm,)),
                          ('time_signatures', 'ts', lambda e: (e.numerator,)),
                          ('key_signatures', 'ks', lambda e: (e.key,))):
-    if lean:
+    if lean and key not in pieces[0]:
       c.check(len(getattr(res, name)) == 0, 'no %s invented' % name)
       continue
     evs = [(p[key][0] + offs[i], (p[key][1],)) for i, p in enumerate(pieces)]
@@ -439,6 +447,9 @@ def jobs(tier):
   add('h_concat', M=3, N=1, durations=False, lean=True, budget=600)
   add('h_concat', M=3, N=1, durations=True, lean=True, budget=600)
   add('h_concat', M=4, N=1, durations=False, lean=True, budget=900)
+  # a state value that returns (A-B-A) or is restated (A-B-B) across pieces
+  add('h_concat', M=3, N=1, durations=False, lean='tempo', budget=900)
+  add('h_concat', M=3, N=1, durations=True, lean='key', budget=900)
   add('h_concat_mismatch')
   add('h_repeat', N=1, seq_dur=False, max_rep=2)
   add('h_repeat', N=1, seq_dur=True, max_rep=2)
